@@ -23,6 +23,10 @@ def schemaNamesDistinct (S : Schema) : Bool :=
     | .enum _ syms => syms.Nodup
     | _ => true
 
+/-- Fuel for the graph traversals (canonical form, renderer, freeze): the bound of the totality
+    theorems C19_pcf_total / C19_render_total, `size * (size+1) * (maxWidth+1) + 1`, with slack. -/
+def graphFuel (S : SchemaMut) : Nat := (S.size + 2) * (S.size + 2) * (maxWidth S + 2) + 64
+
 /-- The C02 oracle on an `Ok(bytes)` outcome: the bytes decode, completely, under the
     specification's decoder, to a value the presentation denotes. -/
 def judgeSer (ext : ExtTable) (S : Schema) (root : Node) (sv : SV) (bs : Bytes) : String :=
@@ -408,6 +412,98 @@ def runJudgeRt : P String := do
     | _, _ => pure "judged # ok")
   | _, _ => pure "judged # ok"
 
+section DeriveCmd
+open Avro.Impl.Derive
+
+/-- fullnames of the named nodes of a graph, in node order -/
+def definedNames (S : SchemaMut) : List String :=
+  S.toList.filterMap fun n => match n.type with
+    | .record nm _ | .enum nm _ | .fixed nm _ => some nm.fq
+    | _ => none
+
+def allDistinct : List String → Bool
+  | [] => true
+  | a :: rest => !rest.contains a && allDistinct rest
+
+/-- `derive <program> <root type> <k> <sv>*`: a family of type definitions deriving the schema
+    builder, and values of the root type as serde presents them. The model builds the schema
+    (`Derive.schemaMut`); the SipHash suffixes of generic records are labelled `H<k>` in order of
+    first appearance in the node list, as the harness relabels the real ones.
+    Oracle (C20): the build succeeds; every key is in bounds; one definition per fullname; the
+    regenerated JSON parses back; it freezes; every value has the shape serde's derive gives the
+    type (validates that parameter); it serializes; the bytes decode under the specification to a
+    value the presentation denotes; and they read back to that value. -/
+def runDerive : P String := do
+  let P ← pProg
+  let root ← pTy
+  let svs ← pList pSV
+  let fuel := 64 * (P.size + 4)
+  let keyStr := fun (k : Key) => toString (repr k)
+  match schemaMut P (fun k => "⟦" ++ keyStr k ++ "⟧") fuel root with
+  | none => pure "build-failed # VIOLATION building the schema failed (assertion or dangling type)"
+  | some S0 =>
+    -- label the hashes in order of first appearance
+    let labels : List String := (definedNames S0).foldl (fun acc nm =>
+      ((nm.splitOn "⟦").drop 1).foldl (fun acc p =>
+        let k := (p.splitOn "⟧").headD ""
+        if acc.contains k then acc else acc ++ [k]) acc) []
+    let hash := fun (k : Key) => "H" ++ toString (labels.idxOf (keyStr k))
+    match schemaMut P hash fuel root with
+    | none => pure "build-failed # VIOLATION building the schema failed"
+    | some S =>
+      let n := S.size
+      let gfuel := graphFuel S
+      let distinct := allDistinct (definedNames S)
+      let jsonOk := match renderJson S gfuel with
+        | .ok j => (match parseJson j (4 * jsonSize j + 8) with | .ok _ => true | .error _ => false)
+        | .error _ => false
+      let jsonS := match renderJson S gfuel with
+        | .ok _ => if jsonOk then "json-ok" else "json-REJECTED"
+        | .error _ => "json-err"
+      let frz := match freeze S false gfuel with | .ok _ => true | .error _ => false
+      let head := s!"nodes {schemaMutToString S} det {jsonS} {if frz then "schema-ok" else "schema-err"}"
+      let F := freezeNodes S
+      match F[0]?, frz with
+      | some rootNode, true =>
+        let results := svs.map fun sv =>
+          let shape := hasShape P (64 * (P.size + 4)) root sv
+          let (r, st) := ser ({} : ExtTable).toExt false F rootNode sv {}
+          match r with
+          | .error .panic => ("panic", "VIOLATION panic", shape)
+          | .error _ => ("err", "VIOLATION a value of the type does not serialize under the derived schema", shape)
+          | .ok _ =>
+            let bs := st.out
+            let dres := deOne {} F rootNode 64 .any { rest := bs }
+            let verdict :=
+              match Spec.decode F (4 * bs.length + 4 * F.size + 64) rootNode bs with
+              | some (v, []) =>
+                if !Spec.denotes ({} : ExtTable).toDenExt F rootNode sv v then "VIOLATION bytes decode to a value the presentation does not denote"
+                else
+                  (match dres, Spec.observe F rootNode v with
+                  | .ok (o, 0), some expected =>
+                    if outToString o = outToString expected then "ok"
+                    else "VIOLATION the value read back differs from the value written"
+                  | .ok _, none => "ok"
+                  | .ok (_, _), some _ => "VIOLATION deserialization left bytes unread"
+                  | .error _, _ => "VIOLATION the bytes written do not read back")
+              | _ => "VIOLATION Ok(bytes) but the bytes do not decode under the specification"
+            (s!"ok {bytesToHex bs} {if verdict = "ok" then "rt-eq" else "rt-FAIL"}", verdict, shape)
+        let body := String.join (results.map fun (o, _, _) => " ; " ++ o)
+        let verdict :=
+          if !S.keysInBounds then "VIOLATION a key outside the node vector"
+          else if !distinct then "VIOLATION a fullname is defined twice in the derived schema"
+          else if !jsonOk then "VIOLATION the JSON of the derived schema does not parse back"
+          else match results.find? (fun (_, v, _) => v ≠ "ok") with
+            | some (_, v, _) => v
+            | none =>
+              if results.all (fun (_, _, sh) => sh) then "ok"
+              else "VIOLATION a captured value does not have the shape the model of serde's derive gives its type (model parameter)"
+        pure s!"{head}{body} # {verdict}"
+      | _, _ =>
+        pure s!"{head} # VIOLATION the derived schema does not freeze"
+
+end DeriveCmd
+
 def poolToString (p : Pool) : String :=
   let bs := p.buffers.reverse.map fun b => toString b.data.length
   let ss := p.superBuffers.reverse.map fun b => toString b.slots.length
@@ -502,7 +598,7 @@ def runSchema : P String := do
   | .error _ =>
     pure (if expect = "ok" then "err # VIOLATION a specification-valid schema document was rejected" else "err # ok")
   | .ok S =>
-    let pcfR := canonicalForm S (8 * (S.size + 1) * (S.size + 1) + 64)
+    let pcfR := canonicalForm S (graphFuel S)
     let pcfStr := match pcfR with
       | .ok p => s!"pcf {strHex p} fp=pcf"
       | .error _ => "pcf-err"
@@ -549,7 +645,7 @@ def runGraph : P String := do
   let unique := (← pNat) ≠ 0
   let S ← pSchemaMut
   let n := S.size
-  let fuel := 8 * (n + 2) * (n + 2) * (n + 2) + 256
+  let fuel := graphFuel S
   let pcfR := canonicalForm S fuel
   let jsonR := renderJson S fuel
   let pcfS := match pcfR with | .ok p => s!"pcf {strHex p}" | .error _ => "pcf-err"
@@ -562,7 +658,7 @@ def runGraph : P String := do
       | .error _ => ("reparse-err", if unique then "VIOLATION the regenerated JSON does not parse back" else "ok")
       | .ok S2 =>
         let n2 := S2.size
-        let fuel2 := 8 * (n2 + 2) * (n2 + 2) * (n2 + 2) + 256
+        let fuel2 := graphFuel S2
         let p2 := canonicalForm S2 fuel2
         let p2s := match p2 with | .ok p => s!"pcf2 {strHex p}" | .error _ => "pcf2-err"
         let j2 := renderJson S2 fuel2
@@ -670,9 +766,8 @@ def runSingle : P String := do
   let ext ← pExtEntries {}
   let S := freezeNodes sm
   let So := freezeNodes other
-  let fuelOf := fun (n : Nat) => 8 * (n + 2) * (n + 2) * (n + 2) + 256
-  match S[0]?, So[0]?, schemaFingerprint sm (fuelOf sm.size), schemaFingerprint other (fuelOf other.size),
-        canonicalForm sm (fuelOf sm.size), canonicalForm other (fuelOf other.size) with
+  match S[0]?, So[0]?, schemaFingerprint sm (graphFuel sm), schemaFingerprint other (graphFuel other),
+        canonicalForm sm (graphFuel sm), canonicalForm other (graphFuel other) with
   | some root, some rootO, .ok fp, .ok fpO, .ok pcfA, .ok pcfB =>
     let readBoth := fun (bytes : Bytes) (fpX : Bytes) (Sx : Schema) (rootX : Node) =>
       let datum := fun (st : RState) =>
@@ -1046,6 +1141,7 @@ def dispatch (line : String) : String :=
       | "judge-schema" => some runJudgeSchema
       | "judge-c11" => some runJudgeC11
       | "judge-skip" => some runJudgeSkip
+      | "derive" => some runDerive
       | "crc" => some runCrc
       | "de" => some runDe
       | "c11" => some runC11
